@@ -108,6 +108,136 @@ Impl!(AtomicI32, i32);
 Impl!(AtomicI64, i64);
 Impl!(AtomicIsize, isize);
 
+
+#[cfg(iceoryx2_verif)]
+macro_rules! VerifOp {
+    ($self:ident, $kind:ident, $wrote:expr, $op:expr) => {{
+        let addr = $self as *const Self as usize;
+        crate::verif::call(crate::verif::Phase::Before, crate::verif::OpKind::$kind, addr, false);
+        let result = $op;
+        #[allow(clippy::redundant_closure_call)]
+        let wrote: bool = ($wrote)(&result);
+        crate::verif::call(crate::verif::Phase::After, crate::verif::OpKind::$kind, addr, wrote);
+        result
+    }};
+}
+
+#[cfg(iceoryx2_verif)]
+macro_rules! VerifCommon {
+    ($type_name:ident, $base_type:ident) => {
+        impl $type_name {
+            #[inline]
+            pub fn load(&self, order: Ordering) -> $base_type {
+                VerifOp!(self, Load, |_| false, self.0.load(order))
+            }
+            #[inline]
+            pub fn store(&self, value: $base_type, order: Ordering) {
+                VerifOp!(self, Store, |_| true, self.0.store(value, order))
+            }
+            #[inline]
+            pub fn swap(&self, value: $base_type, order: Ordering) -> $base_type {
+                VerifOp!(self, Swap, |_| true, self.0.swap(value, order))
+            }
+            #[inline]
+            pub fn compare_exchange(
+                &self,
+                current: $base_type,
+                new: $base_type,
+                success: Ordering,
+                failure: Ordering,
+            ) -> Result<$base_type, $base_type> {
+                VerifOp!(self, CompareExchange, |r: &Result<$base_type, $base_type>| r.is_ok(),
+                    self.0.compare_exchange(current, new, success, failure))
+            }
+            #[inline]
+            pub fn compare_exchange_weak(
+                &self,
+                current: $base_type,
+                new: $base_type,
+                success: Ordering,
+                failure: Ordering,
+            ) -> Result<$base_type, $base_type> {
+                VerifOp!(self, CompareExchange, |r: &Result<$base_type, $base_type>| r.is_ok(),
+                    self.0.compare_exchange_weak(current, new, success, failure))
+            }
+            #[inline]
+            pub fn fetch_and(&self, value: $base_type, order: Ordering) -> $base_type {
+                VerifOp!(self, FetchOp, |_| true, self.0.fetch_and(value, order))
+            }
+            #[inline]
+            pub fn fetch_nand(&self, value: $base_type, order: Ordering) -> $base_type {
+                VerifOp!(self, FetchOp, |_| true, self.0.fetch_nand(value, order))
+            }
+            #[inline]
+            pub fn fetch_or(&self, value: $base_type, order: Ordering) -> $base_type {
+                VerifOp!(self, FetchOp, |_| true, self.0.fetch_or(value, order))
+            }
+            #[inline]
+            pub fn fetch_xor(&self, value: $base_type, order: Ordering) -> $base_type {
+                VerifOp!(self, FetchOp, |_| true, self.0.fetch_xor(value, order))
+            }
+            #[inline]
+            pub fn fetch_update<F: FnMut($base_type) -> Option<$base_type>>(
+                &self,
+                set_order: Ordering,
+                fetch_order: Ordering,
+                f: F,
+            ) -> Result<$base_type, $base_type> {
+                VerifOp!(self, FetchUpdate, |r: &Result<$base_type, $base_type>| r.is_ok(),
+                    self.0.fetch_update(set_order, fetch_order, f))
+            }
+        }
+    };
+}
+
+#[cfg(iceoryx2_verif)]
+macro_rules! VerifInteger {
+    ($type_name:ident, $base_type:ident) => {
+        VerifCommon!($type_name, $base_type);
+        impl $type_name {
+            #[inline]
+            pub fn fetch_add(&self, value: $base_type, order: Ordering) -> $base_type {
+                VerifOp!(self, FetchOp, |_| true, self.0.fetch_add(value, order))
+            }
+            #[inline]
+            pub fn fetch_sub(&self, value: $base_type, order: Ordering) -> $base_type {
+                VerifOp!(self, FetchOp, |_| true, self.0.fetch_sub(value, order))
+            }
+            #[inline]
+            pub fn fetch_max(&self, value: $base_type, order: Ordering) -> $base_type {
+                VerifOp!(self, FetchOp, |_| true, self.0.fetch_max(value, order))
+            }
+            #[inline]
+            pub fn fetch_min(&self, value: $base_type, order: Ordering) -> $base_type {
+                VerifOp!(self, FetchOp, |_| true, self.0.fetch_min(value, order))
+            }
+        }
+    };
+}
+
+#[cfg(iceoryx2_verif)]
+VerifCommon!(AtomicBool, bool);
+#[cfg(iceoryx2_verif)]
+VerifInteger!(AtomicU8, u8);
+#[cfg(iceoryx2_verif)]
+VerifInteger!(AtomicU16, u16);
+#[cfg(iceoryx2_verif)]
+VerifInteger!(AtomicU32, u32);
+#[cfg(iceoryx2_verif)]
+VerifInteger!(AtomicU64, u64);
+#[cfg(iceoryx2_verif)]
+VerifInteger!(AtomicUsize, usize);
+#[cfg(iceoryx2_verif)]
+VerifInteger!(AtomicI8, i8);
+#[cfg(iceoryx2_verif)]
+VerifInteger!(AtomicI16, i16);
+#[cfg(iceoryx2_verif)]
+VerifInteger!(AtomicI32, i32);
+#[cfg(iceoryx2_verif)]
+VerifInteger!(AtomicI64, i64);
+#[cfg(iceoryx2_verif)]
+VerifInteger!(AtomicIsize, isize);
+
 #[derive(Debug, Default)]
 #[repr(transparent)]
 pub struct Atomic<T: internal::AtomicInteger>(internal::Atomic<T>);
